@@ -160,7 +160,7 @@ def run(ctx):
     ctx.extra["cov_related_pairs"] = len(related)
     for a, b in sorted(pairs):
         w = words[rng.choice([a, b])] if rng.random() < 0.8 else words[rng.randrange(n)]
-        check_case(ctx, {"history": [[a, words[a]], [b, w]]})
+        ctx.guard(check_case, {"history": [[a, words[a]], [b, w]]})
     for _ in range(ctx.budget(150, 2500)):
         L = rng.randint(3, 7)
         hist = []
@@ -172,7 +172,7 @@ def run(ctx):
         if related and rng.random() < 0.6:
             a, b = rng.choice(related)
             hist[-2:] = [[a, words[a]], [b, words[rng.choice([a, b])]]]
-        check_case(ctx, {"history": hist})
+        ctx.guard(check_case, {"history": hist})
     # the same letters as a circular plasmid and as a linear fragment, in both orders, same and related classes
     for _ in range(ctx.budget(120, 2500)):
         a = rng.randrange(n)
@@ -180,4 +180,4 @@ def run(ctx):
         inst = words[a]
         w = gen.rot(inst, rng.randrange(len(inst)))      # origin often inside the structure
         t1, t2 = rng.choice([("C", "L"), ("L", "C")])
-        check_case(ctx, {"history": [[a, w, t1], [b, w, t2]]})
+        ctx.guard(check_case, {"history": [[a, w, t1], [b, w, t2]]})
